@@ -61,8 +61,35 @@ static int cmp_key(void const *ctx, void const *r)
     return (a > b) - (a < b);
 }
 
+/* node layout: packed parent/meta word (A_SIZE_POINTER large enough) or separate members (-DA_SIZE_POINTER=1 build) */
+#ifdef VF_TREE_RBT
+#if defined(A_SIZE_POINTER) && (A_SIZE_POINTER + 0 > 1)
+#define VF_PACKED 1
+#else
+#define VF_PACKED 0
+#endif
+#else
+#if defined(A_SIZE_POINTER) && (A_SIZE_POINTER + 0 > 3)
+#define VF_PACKED 1
+#else
+#define VF_PACKED 0
+#endif
+#endif
+#if VF_PACKED
 static inline unsigned meta_of(tnode const *n) { return (unsigned)(n->parent_ & META_MASK); }
 static inline tnode *parent_of(tnode const *n) { return (tnode *)(n->parent_ & ~META_MASK); }
+static inline void set_parent_meta(tnode *n, tnode *parent, unsigned meta) { n->parent_ = (a_uptr)parent | (a_uptr)meta; }
+#elif defined(VF_TREE_RBT)
+/* colour member: 0 red, 1 black; anything else is reported as 2 (never equal to a legal colour) */
+static inline unsigned meta_of(tnode const *n) { return n->color <= 1 ? n->color : 2u; }
+static inline tnode *parent_of(tnode const *n) { return n->parent; }
+static inline void set_parent_meta(tnode *n, tnode *parent, unsigned meta) { n->parent = parent; n->color = meta; }
+#else
+/* factor member -1/0/+1 is reported as factor+1 like the packed form; anything else as 3 ("undefined") */
+static inline unsigned meta_of(tnode const *n) { return (n->factor >= -1 && n->factor <= 1) ? (unsigned)(n->factor + 1) : 3u; }
+static inline tnode *parent_of(tnode const *n) { return n->parent; }
+static inline void set_parent_meta(tnode *n, tnode *parent, unsigned meta) { n->parent = parent; n->factor = (int)meta - 1; }
+#endif
 
 /* ============================================================ shape store */
 /* encoding: pre-order, one byte per node: bit0 has-left, bit1 has-right, bits 2.. meta */
@@ -140,7 +167,7 @@ static tnode *mat_rec(matctx *m, tnode *parent)
     unsigned i = m->pos++;
     uint8_t b = m->e[i];
     hnode *h = m->nodes[i];
-    h->n.parent_ = (a_uptr)parent | (a_uptr)(b >> 2);
+    set_parent_meta(&h->n, parent, (unsigned)(b >> 2));
     h->n.left = (b & 1) ? mat_rec(m, &h->n) : NULL;
     h->key = 2 * m->rank++ + 1;
     h->n.right = (b & 2) ? mat_rec(m, &h->n) : NULL;
@@ -380,6 +407,7 @@ static walkres walk(troot const *root, int const *expect_keys, int expect_n)
             int hl = st[sp - 1].hl, hr = last_h, bl = st[sp - 1].bl, br = last_b;
             unsigned m = meta_of(x);
 #ifdef VF_TREE_RBT
+            if (m > 1) { WFAIL("colour-undefined", "key %d: colour member holds neither red (0) nor black (1)", ((hnode *)x)->key); }
             if (bl != br) { WFAIL("black-height-mismatch", "key %d: black height left %d right %d", ((hnode *)x)->key, bl, br); }
             if (m == 0)
             {
@@ -891,13 +919,14 @@ static void vf_init(void)
     bfsN = vf.tier ? 20 : 15;
 #endif
 #endif
+    if (!VF_PACKED && !vf.tier) { bfsN -= 2; }
     if (getenv("VF_TREE_N")) { bfsN = atoi(getenv("VF_TREE_N")); }
     enumerate_shapes(bfsN);
     n_bfs_cases = (SS.nshapes + CHUNK - 1) / CHUNK;
 #ifdef VF_MODE_ITER
     n_rand_cases = vf.tier ? 12000 : 150;
 #else
-    n_rand_cases = vf.tier ? 20000 : 400;
+    n_rand_cases = vf.tier ? 20000 : (VF_PACKED ? 400 : 200);
 #endif
 }
 static uint64_t vf_ncases(int tier) { (void)tier; return n_bfs_cases + n_rand_cases; }
